@@ -14,3 +14,6 @@ pub use crate::generators::{BulletproofGens, BulletproofGensShare, PedersenGens}
 
 #[cfg(feature = "yoloproofs")]
 pub mod r1cs;
+
+#[cfg(feature = "verif-hooks")]
+pub mod verif_hooks;
